@@ -28,6 +28,7 @@ package cache
 
 import (
 	"bytes"
+	"errors"
 	"sync"
 	"time"
 
@@ -51,6 +52,9 @@ const (
 	// StatusPassed pass status
 	StatusPassed
 )
+
+// ErrInvalidStoreData the data from store is invalid
+var ErrInvalidStoreData = errors.New("the data from store is invalid")
 
 // defaultHitForPassSeconds default hit for pass: 300 seconds
 const defaultHitForPassSeconds = 300
@@ -210,7 +214,23 @@ func (hc *httpCache) initFromStore() (err error) {
 	if err != nil {
 		return
 	}
-	return hc.FromBytes(data)
+	// 先解析至临时的缓存，解析失败或数据无效时不能修改当前缓存，
+	// 否则会残留部分已解析的数据(如status为hit但response为空且永不过期)
+	tmp := &httpCache{}
+	err = tmp.FromBytes(data)
+	if err != nil {
+		return
+	}
+	// store中只保存hit与hit for pass(均有过期时间)，其它的均为无效数据，当作无缓存处理
+	if (tmp.status != StatusHit && tmp.status != StatusHitForPass) ||
+		tmp.expiredAt <= 0 {
+		return ErrInvalidStoreData
+	}
+	hc.status = tmp.status
+	hc.response = tmp.response
+	hc.createdAt = tmp.createdAt
+	hc.expiredAt = tmp.expiredAt
+	return nil
 }
 
 // saveToStore save cache to store
